@@ -254,7 +254,15 @@ func run(ctx context.Context, f ComputeFunc) (*computation, error) {
 	// Compute f and write the results to the c
 	value, err := f(childCtx)
 	if err != nil {
-		go c.node.release()
+		if parent, ok := ctx.Value(computationKey{}).(*computation); ok {
+			// A sub-computation (Cache) that failed: its caller may handle the
+			// error and go on, so what the sub-computation read before it failed
+			// must still invalidate the caller. It stays a dependency of the
+			// caller (and is released with it); it is not cached.
+			c.node.addOut(&parent.node)
+		} else {
+			go c.node.release()
+		}
 		return nil, err
 	}
 
